@@ -16,7 +16,7 @@ import numpy as np
 
 from .. import tgen, tprog
 
-LEAN_TARGETS = ["YProofs.Props.C03", "YProofs.Props.C03Elem", "YProofs.Props.C03Unfuse"]
+LEAN_TARGETS = ["YProofs.Props.C03", "YProofs.Props.C03Elem", "YProofs.Props.C03Unfuse", "YProofs.Props.C03Inv"]
 LEVEL = "proof"
 TRANSLATORS = ["gen_sym"]
 DRIVER = "drv_c03"
